@@ -60,6 +60,7 @@ typedef struct T {
 	/* crash injection (vs_kill_after): never scheduled again once steps_taken reaches kill_after */
 	long steps_taken;
 	long kill_after;          /* < 0: never killed */
+	long ops_done;            /* vs_op_done() calls: whole operations of the client program completed */
 } T;
 
 typedef struct { char name[48]; char *ptr; size_t size; size_t elem; int weak; } Reg;
@@ -83,7 +84,10 @@ static int nevents, cap_events;
 static char *sched_buf;
 static size_t sched_len, sched_cap;
 
-static int policy;               /* 0 random, 1 pct, 2 replay, 3 prefix then non-preemptive */
+static int policy;               /* 0 random, 1 pct, 2 replay, 3 prefix then non-preemptive,
+                                   * 4 operation sequence (each token: run that thread for one whole operation),
+                                   *   then as 3 */
+static int opseq_tid = -1; static long opseq_target; static long opseq_steps = -1;
 static int trace_enabled;         /* record the enabled set of every step (for systematic exploration) */
 static uint32_t *en_masks; static long n_en_masks, cap_en_masks;
 static int last_tid = -1;
@@ -272,8 +276,27 @@ static void pick_next(void)
 		}
 		en_masks[n_en_masks++] = m;
 	}
-	int use_replay = (policy == 2);
-	if (policy == 3) {
+	if (policy == 4) {
+		/* operation-atomic prefix: reaches deep states (several laps of a ring, a drained pool ...)
+		 * from which the step-level exploration then starts */
+		for (;;) {
+			if (opseq_tid >= 0) {
+				T *t = threads[opseq_tid];
+				if (t->wait_kind == W_DONE || killed(t) || t->ops_done >= opseq_target) { opseq_tid = -1; continue; }
+				if (enabled(t)) { n = t; break; }
+				/* blocked inside the operation: the sequence cannot be followed any further */
+				opseq_steps = steps; policy = 3; replay_pos = NULL; break;
+			}
+			while (replay_pos && *replay_pos == ' ') replay_pos++;
+			char *e = NULL;
+			long tid = (replay_pos && *replay_pos) ? strtol(replay_pos, &e, 10) : -1;
+			if (tid < 0 || tid >= nthreads || e == replay_pos) { opseq_steps = steps; policy = 3; replay_pos = NULL; break; }
+			replay_pos = e;
+			opseq_tid = (int)tid; opseq_target = threads[tid]->ops_done + 1;
+		}
+	}
+	int use_replay = (policy == 2) && !n;
+	if (policy == 3 && !n) {
 		while (replay_pos && *replay_pos == ' ') replay_pos++;
 		use_replay = replay_pos && *replay_pos;
 	}
@@ -300,7 +323,7 @@ static void pick_next(void)
 		else if (policy == 3) { replay_pos = NULL; use_replay = 0; n = NULL; flag = 0; }
 		else { end_run(VS_REPLAY_DIVERGED); return; }
 	}
-	if (use_replay) {
+	if (use_replay || n) {
 		/* n, flag chosen above */
 	} else {
 		if (ne == 0) {
@@ -436,6 +459,7 @@ void vs_reset(void)
 	policy = 0;
 	free(replay_str); replay_str = NULL; replay_pos = NULL;
 	trace_enabled = 0; n_en_masks = 0; last_tid = -1;
+	opseq_tid = -1; opseq_steps = -1;
 }
 
 void vs_reg(const char *name, void *ptr, size_t size, size_t elem)
@@ -489,6 +513,12 @@ void vs_policy_prefix(const char *schedule)
 	vs_policy_replay(schedule);
 	policy = 3;
 }
+void vs_policy_opseq(const char *ops)
+{
+	vs_policy_replay(ops);
+	policy = 4; opseq_tid = -1; opseq_steps = -1;
+}
+void vs_op_done(void) { if (self) { __real_pthread_mutex_lock(&G); self->ops_done++; __real_pthread_mutex_unlock(&G); } }
 void vs_trace_enabled(int on) { trace_enabled = on; }
 void vs_set_spurious(int c, int v) { cas_permille = c; cv_permille = v; }
 void vs_set_spurious_futex(int f) { fx_permille = f; fx_left = 8; }
@@ -538,6 +568,7 @@ const char *vs_status_name(int st)
 void vs_print(FILE *f)
 {
 	fprintf(f, "schedule %s\n", sched_len ? sched_buf : "");
+	if (opseq_steps >= 0) fprintf(f, "#opseq-steps %ld\n", opseq_steps);
 	if (trace_enabled) {
 		fprintf(f, "#enabled");
 		for (long i = 0; i < n_en_masks; i++) fprintf(f, " %x", en_masks[i]);
